@@ -57,6 +57,8 @@ RunsMatch(w, r) ==
                                 /\ IF i < Len(r) THEN r[i][3] = w[i][3] ELSE r[i][3] <= w[i][3]
 TLayout == /\ IsEvent("layout")
            /\ bad' = bad \cup (IF Len(Rec.w) > 0 /\ Len(Rec.r) > 0 /\ RunsMatch(Rec.w, Rec.r) THEN {} ELSE {"layout"})
+                         \* the restarted simulation holds as many subgrids (originals and copies) as the dumped one
+                         \cup (IF Rec.nsubw = Rec.nsubr THEN {} ELSE {"subgrids"})
            /\ UNCHANGED <<stateAt, dumpAt, from>>
 
 TFail == IsEvent("fail") /\ bad' = bad \cup {"fail"} /\ UNCHANGED <<stateAt, dumpAt, from>>
@@ -73,7 +75,7 @@ ContinuationExact == "continuation" \notin bad
 \* stop / restart cycles (system-level "write, read back, write again")
 DumpIdempotent == "dump" \notin bad
 \* component level
-ComponentRoundTrip == bad \cap {"rw", "layout"} = {}
+ComponentRoundTrip == bad \cap {"rw", "layout", "subgrids"} = {}
 \* premises of the comparison: the uninterrupted run is reproducible, restarts
 \* find their dump, every process ends normally
 ReferenceReproducible == "rerun" \notin bad
